@@ -42,7 +42,9 @@ def spec(tier):
 def frames_for(seed):
     rng = np.random.default_rng(seed)
     n = int(rng.integers(6, 30))
-    s_lv = [["a", "b", "c"], ["", "e", "f"], ["lo", "mid", "hi", "top"], ["x:y", "x", "y"]][int(rng.integers(0, 4))]
+    # the fifth set: MICRO SIGN, ANGSTROM SIGN, u-umlaut, a backslash - strings that must reach the helper as written
+    s_lv = [["a", "b", "c"], ["", "e", "f"], ["lo", "mid", "hi", "top"], ["x:y", "x", "y"],
+            ["\u00b5g", "\u212b", "Z\u00fcrich", "a\\nb"]][int(rng.integers(0, 5))]
     idx = np.arange(n) % len(s_lv)
     rng.shuffle(idx)
     tr_const = rng.random() < 0.4
@@ -71,6 +73,11 @@ def frames_for(seed):
         "tr": rng.integers(12, 20, size=m2),
     })
     new["succ"] = np.minimum(rng.integers(0, 5, size=m2), new["tr"].to_numpy())
+    # the same strings as categorical dtypes whose declared order is not the sorted one
+    decl = sorted(s_lv, reverse=True)
+    for d in (df, new):
+        d["sc"] = pd.Categorical(d["s"].tolist(), categories=decl)
+        d["so"] = pd.Categorical(d["s"].tolist(), categories=decl, ordered=True)
     return df, new, s_lv
 
 
@@ -97,7 +104,8 @@ def judge(case, m):
 
     # ---- binary / B -------------------------------------------------------------------------
     for fn in ("binary", "B"):
-        for colname, values in (("s", sorted(set(df["s"]))), ("e", sorted(set(df["e"].tolist()))), ("k", sorted(set(df["k"].tolist())))):
+        for colname, values in (("s", sorted(set(df["s"]))), ("e", sorted(set(df["e"].tolist()))), ("k", sorted(set(df["k"].tolist()))),
+                                ("sc", sorted(set(df["s"]))), ("so", sorted(set(df["s"])))):
             choices = [None] + list(values)
             for succ in rng.sample(choices, min(3, len(choices))) + ([0] if colname in ("e", "k") else [""] if "" in values else []):
                 lit = "" if succ is None else (", " + (repr(succ) if not isinstance(succ, str) else "'" + succ + "'"))
@@ -124,7 +132,7 @@ def judge(case, m):
                 except Exception as e:
                     m.violation("binary-indicator", f"{term}: prediction raised {type(e).__name__}: {e}", case=c, key="binary:prediction-raises")
             # a success value that never occurs in training is refused (falsy values included)
-            absents = ["'never'"] + ([] if "" in values else ["''"]) if colname == "s" else ["99"]
+            absents = ["'never'"] + ([] if "" in values else ["''"]) if colname in ("s", "sc", "so") else ["99"]
             for absent in absents:
                 m.ev("binary-indicator")
                 try:
